@@ -67,6 +67,15 @@ Proof. exact library_src_oracles. Qed.
 Theorem LIB_C16_parsed_Uniq : forall mk docs e, run_src mk docs = Ok e -> Uniq e.
 Proof. exact run_src_Uniq. Qed.
 
+(* C09, first appearance in the documents, for the tree the source's parser returns *)
+Theorem LIB_C09_first_appearance : forall mk docs e,
+  docs_ok docs = true -> Forall (Forall wf_node) docs ->
+  run_src mk (map events_of_forest docs) = Ok e ->
+  forall p x, node_at e p = Some x ->
+    map snd (eattrs (snd x)) = dedup (flat_map oattrs (occs p (doc_roots docs)))
+    /\ map cname (isort by_pos (echildren (snd x))) = dedup (flat_map okidnames (occs p (doc_roots docs))).
+Proof. exact library_src_first_appearance. Qed.
+
 (* C03: the tree the source infers is the one the path-indexed specification determines *)
 Theorem LIB_C03_exact : forall mk docs,
   docs_ok docs = true -> Forall (Forall wf_node) docs ->
@@ -118,6 +127,7 @@ Print Assumptions LIB_C01_admits.
 Print Assumptions LIB_reparse.
 Print Assumptions LIB_oracles.
 Print Assumptions LIB_C16_parsed_Uniq.
+Print Assumptions LIB_C09_first_appearance.
 Print Assumptions LIB_C03_exact.
 Print Assumptions LIB_C06_order.
 Print Assumptions LIB_C11_structure_only.
